@@ -69,16 +69,19 @@ def make(key, i):
 
 def blocks(tier, seed):
     out = []
+    ml = 4 if tier == "thorough" else 3  # longest member tuple / frame sequence / track list
     for ki in range(len(KEYS)):
-        out.append({"kind": "emulsion", "key": ki})
+        out.append({"kind": "emulsion", "key": ki, "maxlen": ml})
         for tv in TIMEV:
-            out.append({"kind": "track", "key": ki, "times": tv})
-        out.append({"kind": "etc", "key": ki, "times": list(TIMEV)[(ki + seed) % len(TIMEV)]})
-        out.append({"kind": "tracklist", "key": ki, "times": list(TIMEV)[(ki + seed + 1) % len(TIMEV)]})
+            out.append({"kind": "track", "key": ki, "times": tv, "maxlen": ml})
+        for tv in (list(TIMEV) if tier == "thorough" else [list(TIMEV)[(ki + seed) % len(TIMEV)]]):
+            out.append({"kind": "etc", "key": ki, "times": tv, "maxlen": ml})
+        for tv in (list(TIMEV) if tier == "thorough" else [list(TIMEV)[(ki + seed + 1) % len(TIMEV)]]):
+            out.append({"kind": "tracklist", "key": ki, "times": tv, "maxlen": ml})
         out.append({"kind": "overwrite", "key": ki})
     for tv in TIMEV:
-        out.append({"kind": "etc", "key": KEYS.index(("DiffuseDroplet", 2, 0)), "times": tv})
-        out.append({"kind": "tracklist", "key": KEYS.index(("SphericalDroplet", 1, 0)), "times": tv})
+        out.append({"kind": "etc", "key": KEYS.index(("DiffuseDroplet", 2, 0)), "times": tv, "maxlen": ml})
+        out.append({"kind": "tracklist", "key": KEYS.index(("SphericalDroplet", 1, 0)), "times": tv, "maxlen": ml})
     out.append({"kind": "etc-mixed-frames"})
     out.append({"kind": "long"})
     for d in (1, 2, 3):
@@ -101,20 +104,20 @@ def cases(block):
     k = block["kind"]
     if k == "emulsion":
         n = len(CAT[KEYS[block["key"]]])
-        for t in tuples(n, 3):
+        for t in tuples(n, block.get("maxlen", 3)):
             yield {"kind": k, "key": block["key"], "members": list(t), "typed": True}
         yield {"kind": k, "key": block["key"], "members": [], "typed": False}
     elif k == "track":
         n = len(CAT[KEYS[block["key"]]])
-        for t in tuples(n, 3):
+        for t in tuples(n, block.get("maxlen", 3)):
             yield {"kind": k, "key": block["key"], "members": list(t), "times": block["times"], "info": len(t) == 2}
     elif k == "etc":
         # frame alphabet: untyped empty, typed empty, [v0], [v1], [v0, v1], [v1, v1, v0]
-        for t in tuples(6, 3):
+        for t in tuples(6, block.get("maxlen", 3)):
             yield {"kind": k, "key": block["key"], "frames": list(t), "times": block["times"], "info": len(t) == 1}
     elif k == "tracklist":
         # track alphabet: empty, [v0], [v1, v0], [v0, v0, v1]
-        for t in tuples(4, 3):
+        for t in tuples(4, block.get("maxlen", 3)):
             yield {"kind": k, "key": block["key"], "tracks": list(t), "times": block["times"]}
     elif k == "overwrite":
         for a in range(5):
